@@ -195,6 +195,8 @@ where
             let this = TemporaryNonBlockingGuard::new(&this, fd);
             let waker = LazyCell::default();
             loop {
+                #[cfg(feature = "verif-hooks")]
+                crate::verif_hooks::preemption_point().await;
                 match this.inner.read(fd, buffer).await {
                     #[allow(
                         unreachable_patterns,
@@ -234,6 +236,8 @@ where
             let this = TemporaryNonBlockingGuard::new(&this, fd);
             let waker = LazyCell::default();
             loop {
+                #[cfg(feature = "verif-hooks")]
+                crate::verif_hooks::preemption_point().await;
                 match this.inner.write(fd, buffer).await {
                     #[allow(
                         unreachable_patterns,
